@@ -304,8 +304,8 @@ def _main(a, seed, t_start):
     targets = list(targets) + [n for (k, n) in spec.units() if k == 'contract' and reg.get(n).bounded_only and n not in targets]
     for name in targets:
         c = reg.get(name)
-        if not c.bounded:
-            continue
+        if not c.bounded or any(k.effects is not None for k in c.cases):
+            continue      # (a native run shows return values and exceptions, not the attribute / module writes of an effect clause)
         if name in bounded_done:
             n, fails = bounded_done[name]
         else:
